@@ -116,8 +116,8 @@ def model_days_as_months(d, n_days, sign):
     month/year is moved by those counts in one step (a month difference without year borrow),
     then the remaining days are added (what DateItem::calculate does).
     -> (y, m, d) | 'no-such-day' (the shifted month has no such day: the implementation declines) | None.
-    The result may lie in year 10000 (30 Oct 9999 + 62 days): the Gregorian calendar repeats every
-    400 years, so the day arithmetic is done 400 years earlier."""
+    The result may lie in year 10000 (30 Oct 9999 + 62 days) or in the year 0 (1 Feb 1 - 31 days): the Gregorian calendar repeats
+    every 400 years, so the day arithmetic is done 400 years earlier / later."""
     years, rem = divmod(n_days, 365)
     months, days = divmod(rem, 30)
     try:
@@ -132,7 +132,7 @@ def model_days_as_months(d, n_days, sign):
                 m = d.month - months % 12
                 if m <= 0:
                     m += 12
-        shift = 400 if y > 9000 else 0
+        shift = 400 if y > 9000 else (-400 if y < 400 else 0)          # ... or 400 years later when the result may lie before the year 1 (1 Feb 1 - 31 days)
         if years or months:
             if d.day > calendar.monthrange(y - shift, m)[1]:
                 return 'no-such-day'
